@@ -124,18 +124,35 @@ func (h *Harness) solo(spec *RunSpec, seedOf func(t int) uint64, only [][]bool) 
 			if err != nil {
 				return nil, nil, err
 			}
+			env.Last = make([]*canvas.Path, len(spec.Tasks))
+			env.Drawn = make([]*drawn, len(spec.Tasks))
 			simrt.ResetRangeCounts()
 			simrt.SetSoloOrder(order)
 			ssync.ResetSoloGets()
 			simrt.ResetSoloOps()
 			exec := func() {
+				// alone = the calls this one depends on (the draw call of a "renderdrawn", the chain of
+				// calls whose returned path is this call's operand), then the call itself
+				first := s
+				for first > 0 {
+					st := &spec.Tasks[t].Steps[first]
+					if st.ChainA {
+						first--
+						continue
+					}
+					break
+				}
 				if spec.Tasks[t].Steps[s].Op == "renderdrawn" {
-					// alone = this task's latest draw call, then the render
 					for k := s - 1; k >= 0; k-- {
 						if spec.Tasks[t].Steps[k].Op == "draw" {
-							ExecStep(env, t, &spec.Tasks[t].Steps[k])
+							first = k
 							break
 						}
+					}
+				}
+				for k := first; k < s; k++ {
+					if k == first || spec.Tasks[t].Steps[k].Op == "draw" || dependsOnPrev(spec.Tasks[t].Steps, k, s) {
+						ExecStep(env, t, &spec.Tasks[t].Steps[k])
 					}
 				}
 				res[t][s] = ExecStep(env, t, &spec.Tasks[t].Steps[s])
@@ -173,6 +190,16 @@ func (h *Harness) solo(spec *RunSpec, seedOf func(t int) uint64, only [][]bool) 
 		}
 	}
 	return res, multi, nil
+}
+
+// dependsOnPrev reports whether step k lies on the chain that feeds step s (k..s all chained).
+func dependsOnPrev(steps []Step, k, s int) bool {
+	for j := k + 1; j <= s; j++ {
+		if !steps[j].ChainA {
+			return false
+		}
+	}
+	return true
 }
 
 // Execute runs the reference phases and the simulation phase of one run and applies the oracles.
@@ -274,6 +301,7 @@ func (h *Harness) Execute(spec *RunSpec) (*RunReport, *Outcome, error) {
 		return nil, nil, err
 	}
 	env.Drawn = make([]*drawn, len(spec.Tasks)) // sized up front: tasks only write their own slot
+	env.Last = make([]*canvas.Path, len(spec.Tasks))
 	if !spec.ColdStart {
 		// warm process: the pools exist already (initialised by an earlier call)
 		canvas.Rectangle(1, 1).Settle(canvas.NonZero)
@@ -313,10 +341,27 @@ func (h *Harness) Execute(spec *RunSpec) (*RunReport, *Outcome, error) {
 		bodies[t] = func() {
 			for s := range spec.Tasks[t].Steps {
 				simrt.StepMark()
+				var arg *canvas.Path
+				if spec.Tasks[t].Steps[s].ChainA {
+					arg = env.Last[t]
+				}
 				r := ExecStep(env, t, &spec.Tasks[t].Steps[s])
 				res[t][s] = r
 				if r.Kind == "abort" {
 					return
+				}
+				// O7: paths returned by this task's earlier calls must not change behind its back
+				for k := 0; k < s; k++ {
+					e := &res[t][k]
+					if h := e.Rehash(); h != 0 && h != e.Hash && e.MutatedLater == "" {
+						if e.SameObject(arg) || e.SameObject(r.obj) {
+							// changed by a call that was given it as an argument, or returned again as the
+							// result: an aliasing matter between one caller's objects, not a C20 one
+							e.Hash = h
+							continue
+						}
+						e.MutatedLater = fmt.Sprintf("the path returned by call %d (%s) was changed by the time call %d (%s) of the same task had returned, without being an argument of it", k, spec.Tasks[t].Steps[k].Op, s, spec.Tasks[t].Steps[s].Op)
+					}
 				}
 			}
 		}
@@ -373,6 +418,10 @@ func (h *Harness) Execute(spec *RunSpec) (*RunReport, *Outcome, error) {
 			a, b := ref[t][s], res[t][s]
 			if b.Fault {
 				rep.SinkFaults++
+			}
+			if b.MutatedLater != "" {
+				st := &spec.Tasks[t].Steps[s]
+				rep.Violations = append(rep.Violations, Violation{Class: "result-mutated", Task: t, Step: s, Op: st.Op, Detail: b.MutatedLater, Sig: "result-mutated:" + opSig(st)})
 			}
 			rh.u64(b.Hash)
 			rh.str(b.Kind)
